@@ -2,6 +2,7 @@ package main
 
 import (
 	"fmt"
+	"regexp"
 	"math/big"
 	"os"
 	"sort"
@@ -33,6 +34,8 @@ type harnessCfg struct {
 	Fresh    bool           `json:"fresh"`  // discharge FP obligations in a fresh solver process
 	Note     string         `json:"note"`
 	MaxViol  int            `json:"max_violations"`
+	Asserts  string         `json:"asserts"` // regex: only assertions whose message matches belong to this property
+	Enumerate []string      `json:"enumerate_results"` // functions whose integer results are made concrete by forking
 	CollectLabels bool      `json:"-"`
 }
 
@@ -105,6 +108,10 @@ func explore(ld *loaded, fn *ssa.Function, hc harnessCfg, params map[string]int,
 		maxViol = 8
 	}
 	deadline := t0.Add(wall)
+	var assertRx *regexp.Regexp
+	if hc.Asserts != "" {
+		assertRx = regexp.MustCompile(hc.Asserts)
+	}
 
 	var mu sync.Mutex
 	pending := []gexec.PendingPath{{}}
@@ -199,6 +206,13 @@ func explore(ld *loaded, fn *ssa.Function, hc harnessCfg, params map[string]int,
 			in.Fuel = fuel
 			in.Params = params
 			in.PanicsOK = hc.PanicsOK
+			in.AssertFilter = assertRx
+			if len(hc.Enumerate) > 0 {
+				in.EnumResults = map[string]bool{}
+				for _, e := range hc.Enumerate {
+					in.EnumResults[e] = true
+				}
+			}
 			outcome := runPath(in, fn)
 
 			// turn target panics into violations unless the harness expects them
